@@ -29,7 +29,7 @@ func runC01(c *Ctx) {
 	c.Rule("C01.R3", "LIN/WIRE", "shortcut index: complete window enumeration, same width, same hash, same request field as the shortcut conjunct, stored key is a generated window", 7)
 	c.Rule("C01.R4", "IDX", "domain index: every dot-suffix probed, every permitted domain keyed, wildcard-TLD rules declined, same request field as the $domain conjunct", 5)
 	c.Rule("C01.R5", "WIRE", "Match returns true only if the shortcut conjunct holds", 1)
-	c.Rule("C01.R6", "WIRE", "sequential table scans its whole list", 1)
+	c.Rule("C01.R6", "WIRE", "sequential table scans its whole list and declines only exact duplicates", 2)
 
 	a := &anchors{c: c, rule: "C01.R1"}
 	match := a.method("rules", "NetworkRule", "Match")
@@ -472,6 +472,11 @@ func runC01(c *Ctx) {
 		}
 	}
 
+	// retrieval: the rule handed back for an index is the rule stored there (file and string backing, cache key)
+	importRules(c, runC11, map[string]string{"C11.R4": "C01.R7", "C11.R5": "C01.R7", "C11.R1": "C01.R7", "C11.R3": "C01.R7"},
+		map[string]string{"C01.R7": "index -> rule retrieval returns the rule that was scanned at that index (shared with C11.R1/R3/R4/R5)"})
+	importRules(c, runC19, map[string]string{"C19.R4": "C01.R7"}, nil)
+
 	// ---------- R6 ----------
 	a.rule = "C01.R6"
 	if sq := c.P.Type("lookup", "SeqScanTable"); sq != nil {
@@ -494,6 +499,39 @@ func runC01(c *Ctx) {
 				}
 			}
 			c.Check(bad == "", "C01.R6", "SeqScanTable.MatchAll: complete scan", ma.Pos(), "every stored rule is tested", bad)
+		}
+		if ta := methodOf(c.P, sq, "TryAdd"); ta != nil {
+			g := NewGate(c.P)
+			g.Inline = func(_, callee *ssa.Function, depth int) bool { return depth <= 2 && c.P.IsLibFunc(callee) && callee.Pkg != nil && callee.Pkg.Pkg.Path() == pkgPath("lookup") }
+			s := g.Eval(ta)
+			u := g.U
+			c.Fn(sortedKeys(g.Funcs)...)
+			f := g.ParamExprs(ta)[1]
+			sums := summariseLoops(u, s, ta)
+			// loops of inlined helpers
+			bad := ""
+			for _, r := range s.Rets {
+				v := r.Vals[0]
+				if !(v.Op == "bool" && v.B == False) {
+					continue
+				}
+				// a rejection must be justified by an element with the same rule text (or the same pointer)
+				ok := false
+				for _, at := range u.AtomsOf(r.Cond) {
+					if at.Op == "eq" && u.bdd.Implies(r.Cond, u.Atom(at)) {
+						x, y := at.Args[0], at.Args[1]
+						isText := func(e *E) bool { return e.Op == "field" && e.Aux == "RuleText" }
+						if (isText(x) && isText(y) && (x.Args[0] == f || y.Args[0] == f)) || x == f || y == f {
+							ok = true
+						}
+					}
+				}
+				if !ok {
+					bad = "the sequential table declines a rule without having found a stored rule with the same text (" + clip(u.ShowBool(r.Cond), 160) + "): a rule that merely collides (e.g. on a hash of its text) with another one is silently dropped, although it is the table of last resort"
+				}
+			}
+			_ = sums
+			c.Check(bad == "", "C01.R6", "SeqScanTable.TryAdd: declines only an exact duplicate", ta.Pos(), "every 'return false' is under equality of the rule text with a stored rule", bad)
 		}
 	}
 }
